@@ -186,6 +186,48 @@ def _impl(tier, seed, search):
             if res_ is not None and isinstance(res_, SMUserList) and attr not in ('copy',):
                 if res_ is X or res_.data is getattr(X, 'data', None):
                     L.fail(f'returns-receiver:{iname.split("[")[0]}.{attr}', f'{iname}.{attr} returns its receiver (or shares its value list) instead of a new object', dict(callable=f'{iname}.{attr}'))
+    # ---- 3a'. methods that take arguments: the arguments are supplied from their parameter names (another value of the receiver's class,
+    #           a point, an angle, an interpolation parameter, bounds, a plane …); receiver and every argument must be unchanged
+    def supply(iname, X, pname, variant):
+        cname = iname.split('[')[0]
+        dim = 2 if cname in ('SO2', 'SE2', 'Twist2') else 3
+        if pname in ('dest', 'other', 'start', 'end', 'x2', 'l2', 'line', 'right', 'q2', 'twist', 'X', 'y'):
+            Y = copy.deepcopy(dict(instances())[cname])
+            if variant == 1 and cname in ('UnitQuaternion', 'Quaternion'):
+                # the same rotation class on the opposite hemisphere (negative inner product with the receiver)
+                q_ = -(np.asarray(X.data[0], float) + 0.05 * g.normal(size=4))
+                Y = UnitQuaternion(q_ / np.linalg.norm(q_)) if cname == 'UnitQuaternion' else Quaternion(q_)
+            return Y
+        if pname in ('s',): return 0.5 if variant == 0 else np.array([0.0, 0.3, 1.0])
+        if pname in ('theta', 'angle', 'th', 'k', 'lam', 'lamda', 'lambd', 'l'): return 0.3
+        if pname in ('n', 'N'): return 2
+        if pname in ('bounds',): return np.array([1.0, -1.0, -1.0, 1.0, -1.0, 1.0]) if variant == 0 else [-1.0, 1.0, -1.0, 1.0, -1.0, 1.0]
+        if pname in ('x', 'p', 'point', 'v', 'P', 'pt'): return g.normal(size=dim) if variant == 0 else list(g.normal(size=dim))
+        if pname in ('plane',): return Plane.PN(g.normal(size=3), g.normal(size=3))
+        if pname in ('T',): return SE3(inputs.se3(g, 1))
+        raise KeyError(pname)
+    nargm = 0
+    for iname, X in instances():
+        for attr in sorted(set(dir(type(X)))):
+            if attr.startswith('_') or attr in MUTATORS or any(s_ in attr for s_ in SKIP) or attr in ('data', 'Empty', 'Alloc'): continue
+            static = inspect.getattr_static(type(X), attr)
+            if isinstance(static, (property, classmethod, staticmethod)) or not callable(getattr(X, attr, None)): continue
+            try: sig_ = inspect.signature(getattr(X, attr))
+            except (TypeError, ValueError): continue
+            req = [p_ for p_ in sig_.parameters.values() if p_.default is inspect.Parameter.empty and p_.kind in (p_.POSITIONAL_ONLY, p_.POSITIONAL_OR_KEYWORD)]
+            # optional parameters worth supplying too (interp(s=0, dest=None, start=None, shortest=False) …)
+            opt = [p_ for p_ in sig_.parameters.values() if p_.default is not inspect.Parameter.empty and p_.name in ('s', 'dest', 'start', 'end', 'other')]
+            if not req and not opt: continue
+            req = req + opt
+            flags = [{}] + ([{'shortest': True}] if 'shortest' in sig_.parameters else [])
+            for variant in (0, 1):
+                try: args_ = [supply(iname, X, p_.name, variant) for p_ in req]
+                except KeyError: break
+                for kw_ in flags:
+                    nargm += 1
+                    observe('method-with-args', f'{iname}.{attr}({", ".join(p_.name for p_ in req)}{"".join(", " + k_ + "=True" for k_ in kw_)})',
+                            lambda recv, *a_, attr=attr, kw_=kw_, names_=[p_.name for p_ in req]: getattr(recv, attr)(**dict(zip(names_, a_)), **kw_), [X] + args_, sig=f'mutates-argument:{iname.split("[")[0]}.{attr}')
+    L.stats['methods_with_arguments'] = nargm
     # ---- 3b. histories: an accessor's answer after documented list mutations equals the answer of a freshly built object ------
     for cname, cls, mk in (('SO3', SO3, lambda: inputs.so3(g)), ('SE3', SE3, lambda: inputs.se3(g, 1)), ('UnitQuaternion', UnitQuaternion, lambda: inputs.unitq(g)), ('SO2', SO2, lambda: inputs.so2(g)),
                            ('Twist3', Twist3, lambda: np.r_[g.normal(size=3), inputs.unit_axis(g)])):
